@@ -261,8 +261,8 @@ def split_runs(lines):
     return runs
 
 
-def _tlc_trace(trace_file, cfg, metadir, timeout=900):
-    r = tlc("MQAbsTrace.tla", cfg, metadir, env={"TRACE": trace_file}, workers=1, timeout=timeout,
+def _tlc_trace(trace_file, cfg, metadir, timeout=900, module="MQAbsTrace.tla"):
+    r = tlc(module, cfg, metadir, env={"TRACE": trace_file}, workers=1, timeout=timeout,
             java_opts=JAVA_TRACE_OPTS, xmx="3g")
     m = re.search(r'<<"RESULT", (\d+), (\d+), (.*)>>', r["out"])
     if not m:
@@ -276,11 +276,21 @@ MAX_REJECT_PER_FILE = 4
 MAX_EVENTS_PER_TLC = 250000
 
 
-def validate_file(trace_file, wd):
+MM_KEEP = ('"e":"reset"', '"e":"mminit"', '"e":"mm"', '"e":"ret"', '"e":"stuck"')
+
+
+def validate_file(trace_file, wd, mm=False):
     """Strict validation of one trace file of many runs. Returns dict(accepted_runs, rejected: [lines...],
-    states, generated)."""
+    states, generated). mm=True: the memory-manager lines of the file against MQMemImplTrace (runs without such
+    lines are not counted); otherwise everything but those lines against MQAbsTrace."""
     with open(trace_file) as f:
         lines = [l.rstrip("\n") for l in f if l.strip()]
+    if mm:
+        lines = [l for l in lines if any(k in l for k in MM_KEEP)]
+        module, cfgname, sfx = "MQMemImplTrace.tla", "MQMemImplTrace.cfg", ".mm"
+    else:
+        lines = [l for l in lines if '"e":"mm' not in l]
+        module, cfgname, sfx = "MQAbsTrace.tla", "MQAbsTrace.cfg", ""
     # a harness process that crashed (which is reported separately) leaves a truncated file: keep complete runs
     good = []
     for l in lines:
@@ -290,11 +300,18 @@ def validate_file(trace_file, wd):
         except Exception:
             break
     runs0 = split_runs(good)
-    if runs0 and '"e":"end"' not in good[-1]:
+    if not mm and runs0 and '"e":"end"' not in good[-1]:
         good = good[:runs0[-1][0]]
     lines = good
+    if mm:
+        # only runs that carry a memory-manager trace
+        keep = []
+        for (s0, e0) in split_runs(lines):
+            if any('"e":"mminit"' in l for l in lines[s0:min(e0, s0 + 3)]):
+                keep += lines[s0:e0]
+        lines = keep
     res = {"accepted": 0, "rejected": [], "states": 0, "generated": 0, "events": len(lines)}
-    base = os.path.basename(trace_file)
+    base = os.path.basename(trace_file) + sfx
     # big files are validated in chunks of whole runs (bounded memory and time per TLC process)
     chunks, start = [], 0
     for (s0, e0) in split_runs(lines):
@@ -309,8 +326,8 @@ def validate_file(trace_file, wd):
             part = os.path.join(wd, base + ".part%d" % it)
             with open(part, "w") as f:
                 f.write("\n".join(cur) + "\n")
-            consumed, n, _, r = _tlc_trace(part, os.path.join(SPEC, "MQAbsTrace.cfg"),
-                                           os.path.join(wd, base + ".tlc%d" % it))
+            consumed, n, _, r = _tlc_trace(part, os.path.join(SPEC, cfgname),
+                                           os.path.join(wd, base + ".tlc%d" % it), module=module)
             res["states"] += r["distinct"]
             res["generated"] += r["generated"]
             runs = split_runs(cur)
@@ -335,11 +352,11 @@ def validate_file(trace_file, wd):
     return res
 
 
-def validate_many(files, wd):
+def validate_many(files, wd, mm=False):
     files = [f for f in files if os.path.exists(f) and os.path.getsize(f) > 0]
     out = {"accepted": 0, "rejected": [], "states": 0, "generated": 0, "events": 0}
     with cf.ThreadPoolExecutor(max_workers=min(NCPU, 16)) as ex:
-        for r in ex.map(lambda f: validate_file(f, wd), files):
+        for r in ex.map(lambda f: validate_file(f, wd, mm), files):
             for k in ("accepted", "states", "generated", "events"):
                 out[k] += r[k]
             out["rejected"] += r["rejected"]
@@ -450,6 +467,15 @@ class Verdict:
                        "trace": [json.loads(l) for l in lines],
                        "replay": "bin/check %s --replay %s" % (self.prop, path)}, f, indent=1)
         self.violations.append(path)
+
+    def mm_drift(self, rej, source=""):
+        """A run whose memory-manager ops are not a behaviour of MQMemImpl: conformance, not a property violation"""
+        lines = rej["lines"]
+        hdr = run_header(lines)
+        at = rej.get("at", 0)
+        ev = lines[at] if 0 <= at < len(lines) else ""
+        self.notes.append("memory-manager ops of scenario %s do not follow MQMemImpl (first at event %d of the run: %s)"
+                          % (hdr.get("scn", ""), at, ev[:160]))
 
     def crash(self, info, wd):
         os.makedirs(REPLAYS, exist_ok=True)
